@@ -9,6 +9,7 @@ import RasnModel.Driver.Struct
 import RasnModel.Driver.Pipeline
 import RasnModel.Driver.C08
 import RasnModel.Driver.C09
+import RasnModel.Driver.C12
 import RasnModel.Driver.C13
 import RasnModel.Driver.C18
 import RasnModel.Driver.C19
@@ -29,6 +30,7 @@ def dispatch (line : String) : String :=
   | some (.atom "recgraph" :: args) => Driver.Struct.handleRec args
   | some (.atom "c08chase" :: args) => Driver.C08.handle args
   | some (.atom "c09" :: args) => Driver.C09.handle args
+  | some (.atom "c12use" :: args) => Driver.C12.handle args
   | some (.atom "c13skip" :: args) => Driver.C13.handle args
   | some (.atom "c18" :: args) => Driver.C18.handle args
   | some (.atom "c19" :: args) => Driver.C19.handle args
